@@ -31,6 +31,9 @@ def _positions(log_begin):
     return p, p + 1, log_begin + 40
 
 
+_LOG_BEGIN = [256]
+
+
 def alphabet(p, p1, q):
     return [
         ("P", []),
@@ -47,6 +50,10 @@ def alphabet(p, p1, q):
         ("REFRESH", []),
         ("P-MID-REFRESH", [(p, B)]),
         ("PP", [[(p, A)], [(p, B)]]),  # two messages back to back in one polling interval
+        # positions OUTSIDE the window the periodic refresh re-reads: the configuration section, and the word that straddles
+        # the start of the log section
+        ("P", [(2, A), (17, B)]),
+        ("P", [(_LOG_BEGIN[0] - 1, C), (40, A)]),
     ]
 
 
@@ -417,6 +424,20 @@ def _msg_job(job):
     return len(msgs), bad, ends
 
 
+def _big_job(job):
+    """One partial update carrying n change records (the count is one byte: up to 255)."""
+    kind, n = job
+    _init_alpha()
+    lib.reset_library()
+    p, p1, q = _POS["ppq"]
+    recs = [((p if i % 3 == 0 else (q if i % 3 == 1 else 2 + (i % 200))), bytes([i % 256, (i * 5) % 256])) for i in range(n)]
+    why, step, end = (_run_async if kind == "async" else _run_threaded)([("P", recs)])
+    if why:
+        return (f"C05|{kind}|{why[0]}|records={n}", f"{kind} client, one partial update with {n} change records: {why[1]}",
+                {"kind": kind, "big": n}), end
+    return None, end
+
+
 def _burst_job(job):
     kind, n, pre = job
     _init_alpha()
@@ -452,6 +473,7 @@ def _init_alpha():
     mod = lib.pack_module(f"{snap.packtype.lower()}-log-{snap.log_version}")
     lc = mod.GeckoLogStruct(None)
     p, p1, q = _positions(lc.begin)
+    _LOG_BEGIN[0] = lc.begin
     if q + 2 > lc.begin + lc.end or q + 2 > 1024:
         raise core.HarnessError("C05: positions outside the refresh window")
     _POS["ppq"] = (p, p1, q)
@@ -541,6 +563,14 @@ def run(ctx):
         if res:
             ctx.violation(*res)
     ctx.set("burst_runs", len(bjobs))
+    gjobs = [(kind, n) for kind in ("async", "threaded") for n in (4, 40, 63, 64, 127, 128, 129, 200, 255)]
+    for res, end in core.pmap(ctx, _big_job, gjobs, chunksize=1):
+        traces += 1
+        transitions += 1
+        states.add(("big", end))
+        if res:
+            ctx.violation(*res)
+    ctx.set("big_message_runs", len(gjobs))
     # the same spa object connected a second time, then every event (and every pair of events)
     n_alpha = len(_ALPHA["async"])
     rjobs = [(i,) for i in range(n_alpha)] + [(i, j) for i in range(n_alpha) for j in range(n_alpha) if not ctx.quick or (i + j) % 3 == 0]
@@ -566,7 +596,11 @@ def run(ctx):
 
 def replay(ctx, data):
     _init_alpha()
-    if "burst" in data:
+    if "big" in data:
+        res, _ = _big_job((data["kind"], data["big"]))
+        if res:
+            ctx.violation(*res)
+    elif "burst" in data:
         res, _ = _burst_job((data["kind"], data["burst"], data.get("pre")))
         if res:
             ctx.violation(*res)
